@@ -6,6 +6,10 @@ coq/Model/Writer.v (ocaml/writer_driver.ml).  Each property's check filters the 
 
 go result / model result per op:
   add, size, wm : the model computes what the Go code must print (exact diff)
+  rtb           : isTemporary || isTransientNetworkError of the real code against retriable_spec (Kafka error
+                  table + transient transport classes), one case per error class; the model side NEVER uses the
+                  code's own classification: histories are judged with retriable_spec
+  nwc           : kafka.NewWriter(WriterConfig) field by field against cfg_of_writer_config / options_of_writer_config
   pdl           : the context deadline the RoundTripper receives for the produce / metadata request of the real
                   Writer against produce_deadline_ms (effective WriteTimeout) / metadata_deadline_ms (none: caller's ctx only)
   pto           : real Writer on a delaying broker (ack after d ms) against a RUN of the model with timed_reaction:
@@ -34,14 +38,14 @@ COMMON_TRUSTED = [
     "tie: harness/cmd/writer runs the REAL kafka.Writer (build tag verif, hooks in /repo/verif_export_writer.go) on harness/fakert (typed RoundTripper-level fake: produce and metadata only; no wire format); recorded globally-sequenced histories are judged by the history predicates DEFINED in Model/Writer.v and extracted (ExtrOcamlBasic only); deterministic single-caller scenarios are additionally compared request-by-request with a run of the extracted step function; step-level differential for writeBatch.add/full, Message.totalSize (header-less), partitionWriter.writeMessages, and Client.Produce's response mapping (error code -> Error on all 65536 codes, Throttle, BaseOffset, LogAppendTime, LogStartOffset, RecordErrors)",
     "ocaml/kvio.ml.in + ocaml/writer_driver.ml (parsing, the deterministic scheduler that picks model labels; ~350 lines) and harness/kvfmt",
     "message identity: every message value carries (caller, sequence number); ids are unique per scenario (the model's Call step requires fresh ids)",
-    "retriable : err -> bool is a parameter of the model (theorems hold for every such predicate); on the implementation side it is isTemporary || isTransientNetworkError evaluated through the hook on the errors the fake injects",
+    "retriable : err -> bool is a parameter of the model (theorems hold for every such predicate); histories are judged with the SPECIFIED classification retriable_spec (Kafka protocol error table, transcribed by hand: fidelity trusted; plus transient transport classes), never with the code's own; the code's isTemporary || isTransientNetworkError is compared with it class by class (op rtb); documented deviation of the unchanged tree: code 9 REPLICA_NOT_AVAILABLE is retriable in the table, not in kafka-go",
 ]
 
 PRED_PROP = {
     "C08_limits_holds": "C08", "rejected_sends_nothing_holds": "C08", "verdict_holds": "C08",
     "C01_nil_holds": "C01", "C01_we_holds": "C01", "C01_compl_holds": "C01",
     "C01_compl_total_holds": "C01", "C01_no_foreign_holds": "C01", "C01_dups_holds": "C01",
-    "C07_holds": "C07", "C09_after_close": "C09",
+    "C07_holds": "C07", "C09_after_close": "C09", "no_early_giveup_holds": "C01",
 }
 PRED_WHAT = {
     "C08_limits_holds": "a produce request exceeds BatchSize / BatchBytes or mixes topic-partitions",
@@ -55,6 +59,8 @@ PRED_WHAT = {
     "C01_dups_holds": "log copies do not match applied attempts, or a batch was re-sent without a retriable failure / beyond MaxAttempts",
     "C07_holds": "per-goroutine submission order is not preserved in a partition log",
     "C09_after_close": "WriteMessages started after Close returned did not fail with io.ErrClosedPipe",
+    "no_early_giveup_holds": "a batch was given up with an error the specification classifies as retriable (Kafka error table / "
+                             "transient transport error such as a cut response = unexpected EOF) before MaxAttempts produce requests",
 }
 # failures of the tie itself (model vs code), relevant to all four properties
 CORR_NAMES = ("det:", "log_is_journal", "unknown-message-id", "call-returned-unexpected-error")
@@ -134,6 +140,21 @@ def failures_of_case(c):
                 out.append(("*", "correspondence", "Client.Produce's response mapping (error code value / Throttle / BaseOffset / "
                             "LogAppendTime / LogStartOffset / RecordErrors) differs from the model", None))
         return out
+    if op == "rtb":
+        if go != model:
+            out.append(("C01", "property",
+                        "isTemporary || isTransientNetworkError classifies error class " + c["args"] + " (interchange code, hex) as "
+                        + ("retriable" if go == "1" else "NOT retriable") + " but the specification (Kafka error table's retriable "
+                        "column + transient transport errors: unexpected EOF, reset, broken pipe, refused, time-out) says the opposite: "
+                        "the Writer gives up / keeps retrying where it must not", None))
+        return out
+    if op == "nwc":
+        if go != model:
+            out.append(("C08", "property",
+                        "kafka.NewWriter does not carry a WriterConfig field over to the Writer (fields in order: batchSize, batchBytes, "
+                        "maxAttempts, batchTimeout, backoffMin, backoffMax, readTimeout, writeTimeout, acks, async, balancer, compression, "
+                        "topic, logger, errorLogger, brokers): the configured limits / options are silently replaced by defaults", None))
+        return out
     if op in ("pdl", "pto"):
         if go != model:
             if op == "pdl" and go.split(":")[0] != model.split(":")[0] or op == "pto":
@@ -176,6 +197,9 @@ def failures_of_case(c):
             out.append(("C09", "property", "Close did not return within the watchdog", None))
         elif go.startswith("HANG"):
             out.append(("C09", "property", f"a blocked operation did not return within the watchdog ({go})", None))
+        elif go.startswith("ANOMALY:two-in-flight"):
+            out.append(("C07", "property", "two produce round trips of one partition were in flight at the same time (an attempt was "
+                        "abandoned inside the RoundTripper and the batch re-sent)", None))
         elif go.startswith("LEAK:"):
             out.append(("C09", "property",
                         "after Writer.Close returned, goroutines / connections of the writer's own Transport are still alive "
@@ -220,8 +244,10 @@ def relevant(prop, c):
         return prop == "C01"
     if op == "cfgd":
         return prop == "C08"
-    if op in ("pdl", "pto"):
+    if op in ("pdl", "pto", "rtb"):
         return prop == "C01"
+    if op == "nwc":
+        return prop == "C08"
     if op == "wire":
         return prop == "C07" or (prop == "C09" and "census" in c["feats"].split(","))
     if op == "wm":
@@ -241,6 +267,8 @@ def nontrivial(c):
         return "zero-fields=0" not in c["feats"]
     if c["op"] in ("pdl", "pto"):
         return "rt=wt" not in c["feats"]
+    if c["op"] in ("rtb", "nwc"):
+        return True
     if c["op"] == "wire":
         return "stall" in c["feats"] or "census" in c["feats"]
     if c["op"] == "pr":
@@ -340,7 +368,6 @@ WCUT_GO = {
     "PANIC": "the Writer / Transport panicked",
     "ANOMALY:same-connection-after-cut": "the request after a cut response did not go out on a new connection",
     "ANOMALY:retried-request-differs": "a retried produce request does not carry the same records as the first attempt",
-    "ANOMALY:gave-up-early": "a batch was reported failed with a retriable error before its attempts were exhausted",
     "ANOMALY:success-without-ack": "a message was reported as written although no produce request for it was both applied "
                                    "and completely answered (the only request that reached the broker had its answer cut)",
 }
@@ -356,6 +383,7 @@ WCUT_PRED = {
     "rejected_sends_nothing_holds": "a message of a rejected call was sent",
     "verdict_holds": "validation verdict differs",
     "C09_after_close": "a call after Close did not fail with io.ErrClosedPipe",
+    "no_early_giveup_holds": "a batch was given up after a cut response (unexpected EOF: retriable by the specification) before MaxAttempts produce requests",
 }
 
 
